@@ -223,7 +223,9 @@ std::string removeWhitespaceAroundMarkup(const std::string &in)
 std::string Printer::PrinterImpl::printMath(const std::string &math)
 {
     static const std::string wrapElementName = "math_wrap_as_single_root_element";
-    static const std::regex xmlDeclaration(R"|(<\?xml[[:space:]]+version=.*\?>)|");
+    // Non-greedy: a declaration ends at the first "?>" that follows it. A greedy ".*" runs to the last "?>" of
+    // the line and, with two declarations on one line, takes the mathematics between them along.
+    static const std::regex xmlDeclaration(R"|(<\?xml[[:space:]]+version=.*?\?>)|");
 
     XmlDocPtr xmlDoc = std::make_shared<XmlDoc>();
     xmlKeepBlanksDefault(0);
